@@ -1696,28 +1696,40 @@ impl Family for ConstOrder {
                                     }
                                 }
                                 // values, twice; nothing may be evaluated after compile
+                                // the second round runs after the package is gone (in half of
+                                // the cases): the handles alone keep the constants they read
+                                let mut handles = Vec::new();
+                                for i in 0..n_nodes {
+                                    let name = format!("get{i}");
+                                    match pkg.get_function::<fn() -> i64>(&name) {
+                                        Err(e) => {
+                                            out.viol("const:getter-missing", format!("{name}: {e}"), J::Null);
+                                        }
+                                        Ok(f) => handles.push((i, name, f)),
+                                    }
+                                }
+                                let mut pkg = Some(pkg);
+                                let drop_pkg = out.hash % 2 == 0;
+                                out.tags.push(format!("second-round:package-{}", if drop_pkg { "dropped" } else { "alive" }));
                                 for round in 0..2 {
-                                    for i in 0..n_nodes {
-                                        let name = format!("get{i}");
-                                        match pkg.get_function::<fn() -> i64>(&name) {
-                                            Err(e) => {
-                                                out.viol("const:getter-missing", format!("{name}: {e}"), J::Null);
-                                            }
-                                            Ok(f) => {
-                                                #[allow(clippy::redundant_closure_call)]
-                                                let v: i64 = $call(&f);
-                                                out.events += 1;
-                                                if v != expected[i] {
-                                                    out.viol(
-                                                        format!("const:wrong-value@{}", if g.nodes[i].is_const { "constant" } else { "function" }),
-                                                        format!("{} ({name}) evaluates to {v}, expected {} (round {round})", g.nodes[i].name, expected[i]),
-                                                        J::Null,
-                                                    );
-                                                }
-                                            }
+                                    if round == 1 && drop_pkg {
+                                        pkg = None;
+                                    }
+                                    for (i, name, f) in &handles {
+                                        let i = *i;
+                                        #[allow(clippy::redundant_closure_call)]
+                                        let v: i64 = $call(f);
+                                        out.events += 1;
+                                        if v != expected[i] {
+                                            out.viol(
+                                                format!("const:wrong-value@{}{}", if g.nodes[i].is_const { "constant" } else { "function" }, if round == 1 && drop_pkg { "/package-dropped" } else { "" }),
+                                                format!("{} ({name}) evaluates to {v}, expected {} (round {round})", g.nodes[i].name, expected[i]),
+                                                J::Null,
+                                            );
                                         }
                                     }
                                 }
+                                drop(pkg);
                                 let after = take_inits();
                                 if !after.is_empty() {
                                     out.viol(
